@@ -304,6 +304,13 @@ inductive Op where
   | nulldel (a : Addr)
   /-- `del(NULL)` / `del_root(NULL)` issued by the program -/
   | delNull
+  /-- the object `b` is an instance of the run-time Type object `t` (`t = new(Type, …)`, `b = new(t)`): the header of `b`
+      points at `t`.  A declaration: the collector never follows that pointer (`GC_Recurse`/`GC_Mark_Item` do not trace
+      the header) and no release loop orders `t` after `b`; read by `releasedFirstFrom` only -/
+  | typed (b t : Addr)
+  /-- the object `a` is of a type whose destructor raises an exception (at the end of its body: after its allocations
+      and deletions).  A declaration: the core `step` ignores it, the exception-aware mirror `stepX` below reads it -/
+  | raises (a : Addr)
 deriving Repr, Inhabited, DecidableEq
 
 def step (c : Cfg) (s : St) : Op → St
@@ -327,6 +334,8 @@ def step (c : Cfg) (s : St) : Op → St
   | .markAbort marks => { s with marked := (markBits c s marks).filter s.isReg }
   | .nulldel a => { s with nulldel := a :: s.nulldel }
   | .delNull => gcRemNull c s
+  | .typed _ _ => s
+  | .raises _ => s
 
 def run (c : Cfg) (s : St) (ops : List Op) : St := ops.foldl (step c) s
 
@@ -362,5 +371,143 @@ def markSet (s : St) (held : List Addr) : List Addr :=
   let m0 := held.foldl (fun m h =>
     if s.isReg h then markFrom s fuel [h] m else markFrom s fuel (s.ownsOf h) m) []
   (s.reg.filter (·.root)).foldl (fun m e => markFrom s fuel [e.addr] m) m0
+
+/-! ### second layer: run-time Type objects and destructors that raise
+
+  Two things the core model above has no word for (second-round audit, items 1 and 2):
+
+  * **the type edge.**  An object refers to its Type (`header(b)->type`).  For a Type created at run time with
+    `new(Type, …)` that Type is itself a registered object of the collector, but nothing keeps it alive for its
+    instances: the mark phase does not trace the header, and the release loop of `GC_Sweep` runs in slot order.
+    When the Type's memory is released while an instance of it has not been released yet, the instance's header
+    dangles; at the latest `destruct(instance)` (`instance(x, New)` = `type_instance(type_of(x), New)`) reads the freed
+    Type: undefined behaviour (known finding KF-C06-type-released-first).  `releasedFirstFrom` decides that event on
+    the ledger; from that point on the model says nothing about the process (the driver prints `ub` and stops).
+  * **a destructor that raises.**  The release loop of `GC_Sweep` and `GC_Rem_Ptr` have no handler: the exception leaves
+    `dealloc(destruct(item))` before `dealloc` (no `free` event for the object), skips the rest of every enclosing
+    destructor (their `free` events too), skips `GC_Rem`'s `mitems` update, leaves the release loop with the rest of the
+    pending list still set (`freelist`/`freenum` are not released — a later `del` of such an object still finds it there,
+    the next `GC_Sweep` overwrites and forgets them) and arrives in the program through `GC_Set`/`new` (the object being
+    allocated stays registered, unconstructed), `del`, or out of `GC_Del` at exit (known finding KF-C06-dtor-raises).
+    The functions with suffix `R` are the functions above with that control flow: they return the state and whether an
+    exception is propagating.  `stepX` uses them only once a raising destructor has been declared: for every history
+    without one the second layer *is* the core model (`runX_core`, by definition), so every theorem about `run` is a
+    theorem about `runX` under the explicit hypothesis `NoRaise`. -/
+
+/-- `GC_Rem_Ptr` when `dealloc(destruct(·))` may raise -/
+def gcRemPtrR (fin : St → Addr → St × Bool) (c : Cfg) (s : St) (x : Addr) : St × Bool :=
+  if s.pending.contains (some x) then
+    let s1 := { s with pending := strike x s.pending }
+    if c.remFinalisesPending then fin s1 x else (s1, false)
+  else if s.isReg x then
+    fin { s with reg := eraseReg x s.reg } x
+  else (s, false)
+
+/-- `GC_Rem`: an exception out of `GC_Rem_Ptr` skips `GC_Resize_Less` and the `mitems` update -/
+def gcRemR (fin : St → Addr → St × Bool) (c : Cfg) (s : St) (x : Addr) : St × Bool :=
+  if !s.running then (s, false) else
+  let r := gcRemPtrR fin c s x
+  if r.2 then r else ({ r.1 with mitems := threshold r.1.reg.length }, false)
+
+/-- phase 2 of `GC_Sweep`: an exception out of `dealloc(destruct(item))` leaves the loop -/
+def sweepLoopR (fin : St → Addr → St × Bool) (c : Cfg) : List Addr → St → St × Bool
+  | [], s => (s, false)
+  | a :: rest, s =>
+    if s.pending.contains (some a) then
+      let s1 := if c.sweepNullsSlot then { s with pending := strike a s.pending } else s
+      let r := fin s1 a
+      if r.2 then r else sweepLoopR fin c rest r.1
+    else sweepLoopR fin c rest s
+
+/-- `GC_Sweep`: when the release loop is left by an exception the pending list is *not* released -/
+def sweepWithR (fin : St → Addr → St × Bool) (c : Cfg) (s : St) (marks order : List Addr) : St × Bool :=
+  let pend := pendingOf s marks order
+  let reg' := s.reg.filter (fun e => !swept marks e)
+  let s1 := { s with reg := reg', pending := pend.map some, mitems := threshold reg'.length, marked := [] }
+  let r := sweepLoopR fin c pend s1
+  if r.2 then r else ({ r.1 with pending := [] }, false)
+
+def gcSetR (sw : St → List Addr → List Addr → St × Bool) (c : Cfg) (s : St) (a : Addr) (root : Bool)
+    (marks order : List Addr) : St × Bool :=
+  if !s.running then (s, false) else
+  let s1 := { s with reg := s.reg ++ [⟨a, root⟩] }
+  if s1.reg.length > s1.mitems && !(c.setGuardsSweep && !s.pending.isEmpty) then sw s1 (markBits c s1 marks) order
+  else (s1, false)
+
+/-- `dealloc(destruct(a))` when the destructors of the objects `rs` raise (at the end of their bodies) -/
+def finaliseR (rs : List Addr) : Nat → Cfg → St → Addr → St × Bool
+  | 0, _, s, _ => (s, false)
+  | fuel + 1, c, s, a =>
+    let s1 := { s with log := s.log ++ [Ev.fin a] }
+    let r2 := (s.dallocOf a).foldl
+      (fun (r : St × Bool) d =>
+        if r.2 then r else gcSetR (sweepWithR (finaliseR rs fuel c) c) c r.1 d.addr false d.marks d.order) (s1, false)
+    let r3 := (s.ownsOf a).foldl
+      (fun (r : St × Bool) x => if r.2 then r else gcRemR (finaliseR rs fuel c) c r.1 x) r2
+    let r4 := if !r3.2 && s.nulldel.contains a then (gcRemNull c r3.1, false) else r3
+    if r4.2 then r4
+    else if rs.contains a then (r4.1, true)
+    else ({ r4.1 with log := r4.1.log ++ [Ev.free a] }, false)
+
+def sweepR (rs : List Addr) (c : Cfg) (s : St) (marks order : List Addr) : St × Bool :=
+  sweepWithR (finaliseR rs (fuelFor s) c) c s marks order
+
+def allocByR (rs : List Addr) (c : Cfg) (s : St) (a : Addr) (k : Kind) (marks order : List Addr) : St × Bool :=
+  match k with
+  | .raw => (s, false)
+  | _ => gcSetR (sweepR rs c) c s a (k == .root) marks order
+
+/-- one operation when the destructors of `rs` raise; the Bool says that an exception arrived in the program (which
+    catches it; at teardown nobody does: `Uncaught …`, the process exits with status 1) -/
+def stepR (rs : List Addr) (c : Cfg) (s : St) : Op → St × Bool
+  | .new a k owned marks order =>
+    let r := allocByR rs c s a k marks order
+    -- the exception comes out of `alloc`: the constructor does not run
+    if r.2 then r else ({ r.1 with owns := (a, owned) :: r.1.owns }, false)
+  | .del a k =>
+    match k with
+    | .raw => finaliseR rs (fuelFor s) c s a
+    | _ => gcRemR (finaliseR rs (fuelFor s) c) c s a
+  | .collect marks order => sweepR rs c s (markBits c s marks) order
+  | .teardown order => sweepR rs c s (teardownBits c s) order
+  | .alloc a k marks order => allocByR rs c s a k marks order
+  | .dealloc a _ => finaliseR rs (fuelFor s) c s a
+  | op => (step c s op, false)
+
+/-- state of the second layer: the collector, the type edges, the raising destructors, and what has gone wrong so far -/
+structure XSt where
+  core : St
+  /-- (instance, its run-time Type object) -/
+  types : List (Addr × Addr)
+  /-- objects whose destructor raises -/
+  raises : List Addr
+  /-- number of exceptions that a destructor run by the collector sent into the program so far -/
+  escaped : Nat
+deriving Repr, Inhabited
+
+def XSt.init : XSt := ⟨St.init, [], [], 0⟩
+
+/-- the second layer is the core model until a raising destructor is declared -/
+def stepX (c : Cfg) (x : XSt) (op : Op) : XSt :=
+  match op with
+  | .typed b t => { x with types := (b, t) :: x.types }
+  | .raises a => { x with raises := a :: x.raises }
+  | op =>
+    if x.raises.isEmpty then { x with core := step c x.core op }
+    else
+      let r := stepR x.raises c x.core op
+      { x with core := r.1, escaped := x.escaped + (if r.2 then 1 else 0) }
+
+def runX (c : Cfg) (x : XSt) (ops : List Op) : XSt := ops.foldl (stepX c) x
+
+/-- **a run-time Type object released before one of its instances**: some `free t` of the ledger `log` comes at a moment
+    when an instance `b` of `t` has not been released (`freed` = what had been released before `log` started) -/
+def releasedFirstFrom (freed : List Addr) (types : List (Addr × Addr)) : List Ev → Bool
+  | [] => false
+  | Ev.free a :: rest =>
+    types.any (fun p => p.2 == a && p.1 != a && !freed.contains p.1) || releasedFirstFrom (a :: freed) types rest
+  | _ :: rest => releasedFirstFrom freed types rest
+
+def XSt.releasedFirst (x : XSt) : Bool := releasedFirstFrom [] x.types x.core.log
 
 end Cello.Life
